@@ -271,11 +271,16 @@ static void op_nonu (void)
 int main (int argc, char **argv)
 {
   const char *fn = argc > 1 ? argv[1] : "c06_vtk.tmp";
+  int mem_pkg, mem_def;
   sc_init (sc_MPI_COMM_NULL, 0, 0, NULL, SC_LP_SILENT);
   while (next_case ()) {
     const char *op;
     if (g_ntok == 0) continue;
     alarm (CASE_SECONDS);
+    /* every case creates and destroys its own arrays: the allocation balance of the libsc package and of the
+       default package must be the same before and after it, on success and on every error path */
+    mem_pkg = sc_memory_status (sc_package_id);
+    mem_def = sc_memory_status (-1);
     op = g_tok[0];
     if (!strcmp (op, "enc")) op_enc ();
     else if (!strcmp (op, "dec")) op_dec ();
@@ -303,6 +308,8 @@ int main (int argc, char **argv)
 #endif
 #endif
     else printf ("UNKNOWN_OP");
+    if (sc_memory_status (sc_package_id) != mem_pkg || sc_memory_status (-1) != mem_def)
+      printf (" MEMORY-STATUS-CHANGED(libsc%+d,default%+d)", sc_memory_status (sc_package_id) - mem_pkg, sc_memory_status (-1) - mem_def);
     printf ("\n");
     fflush (stdout);
   }
